@@ -146,6 +146,19 @@ let check_nodes (src : string) (its : Sexp.t list) (parsed : Sexp.t) : [ `Ok | `
       end);
   match !bad with None -> `Ok | Some m -> `Property m
 
+(* the nodes whose range is exactly (s, e), and the type that the FORM of a node determines, if it does *)
+let nodes_at (parsed : Sexp.t) (r : int * int) : Sexp.t list =
+  let acc = ref [] in node_ranges parsed [] (fun s e t _ -> if (s, e) = r then acc := t :: !acc); !acc
+let obvious_type (t : Sexp.t) : string option =
+  match t with
+  | L (A "lit" :: _) -> Some "int"
+  | A ("true" | "false") -> Some "bool"
+  | A ("int" | "bool" | "type") -> Some "type"
+  | L (A ("sum" | "diff" | "prod" | "quot" | "neg") :: _) -> Some "int"
+  | L (A ("lt" | "le" | "eq" | "gt" | "ge") :: _) -> Some "bool"
+  | L (A "pi" :: _) -> Some "type"
+  | _ -> None
+
 let all_node_ranges (parsed : Sexp.t) : (int * int) list =
   let acc = ref [] in node_ranges parsed [] (fun s e _ _ -> acc := (s, e) :: !acc); !acc
 
@@ -155,7 +168,7 @@ let case_diag (src : string) = L [ A "diag"; A (hex src) ]
 
 let pieces = [| "ab"; "x = 1"; "  cd"; "\t"; " "; "\xc3\xa9"; "\xc3\xa9t\xc3\xa9 + tru"; "   "; "\r"; "f (g h)"; "\xe2\x80\x83"; "z"; "" |]
 
-let gen ~(tier : string) ~(seed : int) ~(emit : Sexp.t -> unit) : unit =
+let gen_main ~(tier : string) ~(seed : int) ~(emit : Sexp.t -> unit) : unit =
   let r = Rng.make (seed * 9176 + 15) in
   (* (a) listing on random multi-line texts and all ranges on character boundaries of small texts *)
   for _ = 1 to (if tier = "quick" then 1500 else 15000) do
@@ -192,6 +205,28 @@ let gen ~(tier : string) ~(seed : int) ~(emit : Sexp.t -> unit) : unit =
       end
     end
   done
+
+(* (d) every diagnostic of the type checker on a minimal program, with the text it must mark *)
+let typing_templates : (string * string) list =
+  [ ("(x : 5) => x", "5"); ("f = (x : 5) -> int; 1", "5"); ("t = 5 -> int; 1", "5"); ("t = int -> 5; 1", "5");
+    ("t = (n : int) -> n + 1; 1", "n + 1"); ("t = {x : int} -> true; 1", "true"); ("t = (n : bool) -> (m : int) -> 7; 1", "7");
+    ("x : 5 = 3; x", "5"); ("3 4", "3"); ("true (1)", "true"); ("((x : int) => x) true", "true"); ("x : bool = 3; x", "3");
+    ("-true", "true"); ("if 1 then 2 else 3", "1"); ("f = (x : int) => x; f true", "true");
+    ("f = (g : int -> int) => g 1; f 5", "5"); ("f : (int -> int) = (x : bool) => 1; f", "(x : bool) => 1");
+    ("f = (x : int) => (y : bool) => x; f 1 2", "2"); ("p = (a : type) => (x : a) => x; p int true", "true") ]
+  @ List.concat_map (fun o -> [ ("true " ^ o ^ " 1", "true"); ("1 " ^ o ^ " true", "true"); ("(2 < 3) " ^ o ^ " 1", "(2 < 3)") ])
+    [ "+"; "-"; "*"; "/"; "<"; "<="; "=="; ">"; ">=" ]
+
+let gen_typing ~(emit : Sexp.t -> unit) : unit =
+  List.iter (fun (src, marked) ->
+      List.iter (fun prefix ->
+          (* a line break before `-` does not separate *)
+          if not (src.[0] = '-' && prefix <> "" && prefix.[String.length prefix - 1] <> ' ') then
+            emit (L [ A "diag"; A (hex (prefix ^ src)); A (hex marked) ]))
+        [ ""; "# c \xc3\xa9\n"; "\n\n"; "z0 = 1\n"; "z0 = 1; " ]) typing_templates
+
+let gen ~(tier : string) ~(seed : int) ~(emit : Sexp.t -> unit) : unit =
+  gen_main ~tier ~seed ~emit; gen_typing ~emit
 
 (* ------------------------------------------------------------------------------ checking *)
 let has (m : string) (p : string) = (try ignore (Str.search_forward (Str.regexp_string p) m 0); true with Not_found -> false)
@@ -230,8 +265,9 @@ let check (case : Sexp.t) (res : Sexp.t) : [ `Ok | `Mismatch of string | `Proper
     let shown = listing cs (nat_of_int (int s)) (nat_of_int (int e)) in
     let model = render shown in
     if model = out then (`Ok, shown <> []) else (`Mismatch ("listing differs from the model:\n" ^ model), true)
-  | L [ A "diag"; h ], L [ A "diag"; A stage; toks; parsed; L (A "msgs" :: msgs); _ ] ->
+  | L (A "diag" :: h :: expected), L [ A "diag"; A stage; toks; parsed; L (A "msgs" :: msgs); _ ] ->
     let src = unhex h in
+    let expected = (match expected with [ e ] -> Some (unhex e) | _ -> None) in
     let msgs = List.map unhex msgs in
     let node_result =
       (match toks, parsed with
@@ -261,9 +297,36 @@ let check (case : Sexp.t) (res : Sexp.t) : [ `Ok | `Mismatch of string | `Proper
                          | Some x when scoping && parenthesised_identifier src toks s e x -> None
                          | Some x -> Some (Printf.sprintf "the diagnostic about `%s` marks `%s`" x marked)
                          | None -> None)
-                      else if List.mem (s, e) nodes then None
+                      else if List.mem (s, e) nodes then
+                        (* the marked subexpression must be the one the message talks about: where the form of
+                           the marked node determines its type, the message must not claim another type *)
+                        (let obvious = List.filter_map obvious_type (nodes_at parsed (s, e)) in
+                         let all_obvious = obvious <> [] && List.length obvious = List.length (nodes_at parsed (s, e)) in
+                         let claimed = between_ticks head in
+                         if has head "This is not a type" && all_obvious && List.for_all (fun o -> o = "type") obvious then
+                           Some (Printf.sprintf "the diagnostic `This is not a type` marks `%s`, which is a type" marked)
+                         else if has head "This has type" && all_obvious then
+                           (match claimed with
+                            | Some c when not (List.mem c obvious) ->
+                              Some (Printf.sprintf "the diagnostic says the marked text `%s` has type `%s`, but its form gives it type `%s`" marked c (List.hd obvious))
+                            | _ -> None)
+                         else None)
                       else Some (Printf.sprintf "a type diagnostic marks `%s` [%d,%d), which is not the text of a subexpression: %s" marked s e head))
               | _ -> None)) None msgs in
+       (* minimal programs with a known fault: one of the type diagnostics must mark exactly the expected text *)
+       let problem = (match problem, expected with
+           | None, Some want when stage = "type" ->
+             let marks = List.filter_map (fun m ->
+                 match Str.bounded_split (Str.regexp_string "\n\n") m 2 with
+                 | [ _; listing ] -> (match marked_range src listing with
+                     | Stdlib.Ok (s, e) -> (try Some (String.sub src s (e - s)) with _ -> None)
+                     | Stdlib.Error _ -> None)
+                 | _ -> None) msgs in
+             if List.mem want marks then None
+             else Some (Printf.sprintf "the type diagnostics of this minimal program must mark `%s`; they mark %s" want
+                          (String.concat ", " (List.map (fun x -> "`" ^ x ^ "`") marks)))
+           | None, Some want when stage <> "type" -> Some (Printf.sprintf "a minimal ill-typed program (fault at `%s`) is not reported by the type checker (stage %s)" want stage)
+           | _ -> problem) in
        (match problem with
         | Some p -> (`Property p, true)
         | None -> (`Ok, msgs <> [] || nodes <> [])))
